@@ -41,8 +41,8 @@ type Gen struct {
 	count  int
 }
 
-var collNamePool = []string{"a", "ab", "coll", "c:", "d:", "i:x", "x y", "naïve", "c.d", "a:b", "日本", "t", "", "coll:", "c:a", "\x00", "A"}
-var fieldPool = []string{"a", "ab", "b", "x", "xy", "n", "s", "arr"}
+var collNamePool = []string{"a", "ab", "coll", "c:", "d:", "i:x", "x y", "naïve", "c.d", "a:b", "日本", "t", "", "coll:", "c:a", "\x00", "A", "a-rather-long-collection-name-0123456789"}
+var fieldPool = []string{"a", "ab", "b", "x", "xy", "n", "s", "arr", "a_rather_long_field_name_for_an_index"}
 
 func i64(x int64) interface{}   { return x }
 func u64(x uint64) interface{}  { return x }
